@@ -1318,3 +1318,68 @@ bus_service_list_queued_owners (BusService *service,
   _dbus_list_clear (return_list);
   return FALSE;
 }
+
+#ifdef FREEDESKTOP_DBUS_VERIF
+/* Verification hook H1 (off unless built with -DFREEDESKTOP_DBUS_VERIF): dump the name
+ * registry and check its structural invariants at a quiescent point. */
+#include <stdio.h>
+#include <stdlib.h>
+
+void bus_verif_registry_state (BusRegistry *registry, FILE *out);
+
+void
+bus_verif_registry_state (BusRegistry *registry,
+                          FILE        *out)
+{
+  DBusHashIter iter;
+
+  _dbus_hash_iter_init (registry->service_hash, &iter);
+  while (_dbus_hash_iter_next (&iter))
+    {
+      BusService *service = _dbus_hash_iter_get_value (&iter);
+      DBusList *link;
+
+      if (service->owners == NULL)
+        {
+          fprintf (stderr, "VERIF-INVARIANT name %s has an empty owner queue\n", service->name);
+          abort ();
+        }
+
+      if (out != NULL)
+        fprintf (out, "N %s", service->name);
+
+      for (link = _dbus_list_get_first_link (&service->owners);
+           link != NULL;
+           link = _dbus_list_get_next_link (&service->owners, link))
+        {
+          BusOwner *owner = link->data;
+          DBusList *other;
+          const char *cname = bus_connection_get_name (owner->conn);
+
+          for (other = _dbus_list_get_next_link (&service->owners, link);
+               other != NULL;
+               other = _dbus_list_get_next_link (&service->owners, other))
+            {
+              if (((BusOwner *) other->data)->conn == owner->conn)
+                {
+                  fprintf (stderr, "VERIF-INVARIANT name %s has two queue entries for one connection\n", service->name);
+                  abort ();
+                }
+            }
+
+          if (bus_connection_is_monitor (owner->conn))
+            {
+              fprintf (stderr, "VERIF-INVARIANT a monitor is in the queue of name %s\n", service->name);
+              abort ();
+            }
+
+          if (out != NULL)
+            fprintf (out, " %s/%d/%d", cname ? cname : "?",
+                     (int) owner->allow_replacement, (int) owner->do_not_queue);
+        }
+
+      if (out != NULL)
+        fputc ('\n', out);
+    }
+}
+#endif /* FREEDESKTOP_DBUS_VERIF */
